@@ -23,11 +23,29 @@ needs neither a model of the class nor a fresh twin, and names the call site.
 import contextlib
 import functools
 
+import numpy as np
+
 from . import compare as C
 
 STATE = {"installed": False, "enabled": True, "depth": 0,
          "events": [], "stored": {}, "hits_checked": 0, "nondet": 0}
 MAX_EVENTS = 50
+
+
+def _close(a, b):
+    """Equal up to 1e-6 of the value's scale: a re-evaluation on single-
+    precision data that were re-normalised in between moves by rounding
+    noise; stale or overwritten values differ by far more."""
+    scale = 1.0
+    try:
+        x = np.asarray(b)
+        if x.dtype.kind in "fc" and x.size:
+            m = np.nanmax(np.abs(x[np.isfinite(x)])) if np.isfinite(
+                x).any() else 1.0
+            scale = max(1.0, float(m))
+    except Exception:
+        pass
+    return C.same(a, b, (1e-6, 1e-6 * scale))
 
 
 def _key(self, attrs, a, k):
@@ -70,10 +88,10 @@ def install(cache_mod):
                 try:
                     STATE["hits_checked"] += 1
                     fresh = C.call(f, self, *a, **k)
-                    if C.same(val, fresh, "tight")[0]:
+                    if _close(val, fresh)[0]:
                         return val
                     fresh2 = C.call(f, self, *a, **k)
-                    if not C.same(fresh, fresh2, "tight")[0]:
+                    if not _close(fresh, fresh2)[0]:
                         STATE["nondet"] += 1
                         return val
                     d0 = STATE["stored"].get(skey)
@@ -84,7 +102,7 @@ def install(cache_mod):
                             "kind": kind, "cls": type(self).__name__,
                             "method": f.__name__, "qual": f.__qualname__,
                             "args": (repr(a) + repr(sorted(k.items())))[:120],
-                            "why": C.same(val, fresh, "tight")[1][:300],
+                            "why": _close(val, fresh)[1][:300],
                             "recheck": (self, wrapped, f, a, k)})
                 finally:
                     STATE["depth"] -= 1
@@ -143,7 +161,7 @@ def drain():
                 if wrapped.cache_info().hits == h0:
                     continue            # entry gone: recomputed just now
                 fresh = C.call(f, self, *a, **k)
-                if C.same(val, fresh, "tight")[0]:
+                if _close(val, fresh)[0]:
                     continue            # restored by the library
             out.append(e)
     finally:
